@@ -1,7 +1,7 @@
 (* The operators and the modelled library of value.New() (Sem/Ops.v, Sem/Lib.v) never answer Panic:
    every fault they detect is a returned error.  (The model follows the code after
    "fix: operator faults are returned as errors instead of panicking".) *)
-From P2 Require Import Base.Prelude Sem.Num Sem.Syntax Sem.Ops Sem.Lib.
+From P2 Require Import Base.Prelude Sem.Num Sem.Syntax Sem.Ops Sem.Lib Sem.StrLibProofs.
 Require Import Lia.
 Local Open Scope Z_scope.
 
@@ -320,6 +320,7 @@ Proof.
   intros recv m args. unfold run_method. destruct recv;
     try apply run_list_method_np; try apply run_map_method_np;
     repeat match goal with
+    | |- run_str_method _ _ _ <> _ => apply run_str_method_np
     | |- (if ?c then _ else _) <> _ => destruct c
     end; try discriminate; apply bind_np; try discriminate; apply to_string_np.
 Qed.
